@@ -492,7 +492,9 @@ pub fn cm_response() -> Ty {
     let mut v = vec![
         f(1, "existingResidentCredentialsCount", false, Ty::Uint(U32)),
         f(2, "maxPossibleRemainingResidentCredentialsCount", false, Ty::Uint(U32)),
-        f(3, "rp", false, rp_entity(false)),
+        // an authenticator can hold an rp entity whose icon placeholder is set (decoded from a
+        // request); it must never be emitted
+        f(3, "rp", false, rp_entity(true)),
         f(4, "rpIDHash", false, Ty::BytesExact(32)),
         f(5, "totalRPs", false, Ty::Uint(U32)),
         f(6, "user", false, user_entity()),
